@@ -338,7 +338,7 @@ class Shadow:
             for key in _ordered(before[kind], kind):
                 it = (kind, key)
                 b = before[kind][key]
-                a = _after_of(kind, key, b, after)
+                a = _after_of(kind, key, b, after, self.folder)
                 name = b[3] if kind == "file" else key
                 if a is None:
                     continue  # the object was replaced / removed: nothing to compare
@@ -421,11 +421,12 @@ def _ordered(d, kind):
     return sorted(d, key=(lambda k: (d[k][3], not d[k][2])) if kind == "file" else None)
 
 
-def _after_of(kind, key, b, after):
+def _after_of(kind, key, b, after, folder):
     """The state after the transition of the item that was ``b`` before it."""
     a = after[kind].get(key)
-    if kind == "file" and b[2]:
-        # what the agent sees is the live file at this path, even if the object behind it was replaced
+    if kind == "file" and b[2] and b[3].startswith(folder + "/"):
+        # in the watched folder what the agent sees is the live file at this path, even if the object behind it was
+        # replaced (database restore); elsewhere a replaced file is a new file
         a = next((x for x in after["file"].values() if x[2] and x[3] == b[3]), a)
     return a
 
@@ -591,7 +592,7 @@ class HealthAdapter(engine.Adapter):
         tags = []
         for kind in ("sw", "file", "folder"):
             for n, b in before[kind].items():
-                a = _after_of(kind, n, b, after) or b
+                a = _after_of(kind, n, b, after, self.sc["folder"]) or b
                 if a[0] != b[0]:
                     tags.append("true:%s:%s>%s" % (kind, b[0], a[0]))
                 if a[1] != b[1]:
